@@ -25,7 +25,7 @@ import (
 	mh "github.com/multiformats/go-multihash"
 )
 
-const zzvN = 4 // CID pool
+const zzvN = 6 // CID pool (a full ledger of 3 plus 3 newcomers)
 
 func zzvMkCid(code uint64, digestLen int, tag byte) cid.Cid {
 	d := make([]byte, digestLen)
@@ -235,6 +235,11 @@ func HarnessC36Intake() { zzvIntake(zzvOpts{answers: true}) }
 // evicted, who is rejected.
 func HarnessC36Overflow() { zzvIntake(zzvOpts{}) }
 
+// HarnessC36OverflowBig: the same with the parameters pinned to one larger shape: a full ledger of 3 wants and
+// a message of 3 new wants (both phases of handleOverflow run, with several block-less wants freed in the
+// first phase before priorities are compared in the second).
+func HarnessC36OverflowBig() { zzvIntake(zzvOpts{}) }
+
 func zzvIntake(o zzvOpts) {
 	LIM := verifrt.Param("LIM", 2)
 	M := verifrt.Param("M", 2)
@@ -276,6 +281,9 @@ func zzvIntake(o zzvOpts) {
 	} else if limit > 1 {
 		lo = limit - 1 // overflow entry: the ledger is full or has one free slot
 	}
+	if !o.answers && verifrt.Param("FULL", 0) == 1 {
+		lo = limit // ... or just full
+	}
 	n0 := verifrt.NondetRange("preWants", lo, hi)
 	var pre [zzvN]zzvWant
 	if n0 > 0 {
@@ -299,7 +307,7 @@ func zzvIntake(o zzvOpts) {
 	}
 
 	// ---- the message under test
-	m := verifrt.NondetRange("entries", 1, M)
+	m := verifrt.NondetRange("entries", verifrt.Param("MLO", 1), M)
 	m2 := &zzvMsg{full: zzvBool("full", o.answers, false)}
 	var in2 [zzvN]zzvWant // the message's entry for pool[i]
 	var cancel2 [zzvN]bool
@@ -313,7 +321,7 @@ func zzvIntake(o zzvOpts) {
 		if o.answers {
 			maxKind = 3
 		}
-		kind := verifrt.NondetRange("kind", 0, maxKind)
+		kind := verifrt.NondetRange("kind", verifrt.Param("KINDLO", 0), maxKind)
 		w := zzvNondetWant(o)
 		cancel := zzvBool("cancel", o.answers, false)
 		switch kind {
@@ -347,6 +355,13 @@ func zzvIntake(o zzvOpts) {
 		if kind <= 1 && !cancel {
 			nWants2++
 		}
+	}
+	// overflow entry: the message may end with a cancel for a ledger want it has not named (cancels travel in
+	// the same message as the wants that fill the list)
+	if !o.answers && usedOld < n0 && verifrt.Param("TC", 1) == 1 && verifrt.NondetRange("trailingCancel", 0, 1) == 1 {
+		i := n0 - 1
+		in2[i], cancel2[i] = zzvWant{in: true}, true
+		m2.entries = append(m2.entries, zzvEntry(pool[i], in2[i], true))
 	}
 	verifrt.Assert("C36.no-disconnect", !e.MessageReceived(ctx, p, m2))
 
@@ -398,6 +413,15 @@ func zzvCheckIntake(pool []cid.Cid, bs *zzvBS, permitted [zzvN]bool, limit, repl
 		}
 	}
 	truncated := nW > limit
+	// The cancels of a message are applied after its wants: a want turned away because the list was full stays
+	// out although a cancel in the same message frees a slot afterwards. Who is evicted / turned away is claimed
+	// only for messages that do not also cancel a want of the ledger.
+	cancelsOld := false
+	for i := range pool {
+		if old[i] && cancel2[i] {
+			cancelsOld = true
+		}
+	}
 	_ = nWants2
 	for i := range pool {
 		if cancel2[i] {
@@ -425,7 +449,7 @@ func zzvCheckIntake(pool []cid.Cid, bs *zzvBS, permitted [zzvN]bool, limit, repl
 	var evicted, accepted, rejected, kept [zzvN]bool
 	for i := range pool {
 		switch {
-		case truncated:
+		case truncated || cancelsOld:
 		case old[i] && !fin[i].in && !cancel2[i]:
 			evicted[i] = true
 			nEvicted++
